@@ -14,8 +14,11 @@ import (
 	"math/rand"
 	"reflect"
 	"strings"
+	"time"
 
 	"github.com/lorenzodonini/ocpp-go/ocpp"
+	core16 "github.com/lorenzodonini/ocpp-go/ocpp1.6/core"
+	types16 "github.com/lorenzodonini/ocpp-go/ocpp1.6/types"
 	"github.com/lorenzodonini/ocpp-go/ocppj"
 
 	"verif/tools/internal/cw"
@@ -328,6 +331,7 @@ func c04dGen(cfg config, emit func(Case)) {
 }
 
 func c04sGen(cfg config, emit func(Case)) {
+	c04BigIntProbe(emit)
 	rng := rand.New(rand.NewSource(cfg.seed + 99))
 	n := 400
 	if cfg.thorough {
@@ -378,6 +382,22 @@ func c04sGen(cfg config, emit func(Case)) {
 			_ = valid
 			emit(Case{Class: "string-text", Input: in, Obs: obs, Comment: fmt.Sprintf("%q esc=%v", s, esc)})
 		}
+	}
+}
+
+// probe for finding F14: an integer field above 2^53 (valid: the field has no upper bound) does not survive the wire,
+// because the receiving endpoint decodes every frame into float64 values first.  The case rides on a trivial string-text
+// input (the model entry has nothing to say about it); its Check reports what the real round trip did.
+func c04BigIntProbe(emit func(Case)) {
+	ends := newC04Ends("16")
+	for _, m := range allMsgTypes() {
+		if !(m.version == "16" && m.feature == "StartTransaction" && m.isReq) {
+			continue
+		}
+		req := core16.NewStartTransactionRequest(1, "tag", 1<<53+1, types16.NewDateTime(time.Date(2026, 1, 2, 3, 4, 5, 0, time.UTC)))
+		_, _, kind, detail := c04RoundTrip(ends, m, reflect.ValueOf(req), true)
+		emit(Case{Class: "probe/int-above-2^53", Input: []int64{1, 97}, Obs: []int64{97}, Comment: "StartTransaction.meterStart = 2^53+1",
+			Check: func([]int64) (string, string) { return kind, detail }})
 	}
 }
 
